@@ -416,7 +416,14 @@ pub fn explore_theory(th: &Theory, make: fn() -> Box<dyn DynModel>, b: &Bounds, 
     }
     res.states = seen.len() as u64;
     for depth in 0..b.depth {
-        let expanded: Vec<(usize, Result<Vec<SuccOut>, String>)> = frontier.par_iter().enumerate().map(|(ni, node)| {
+        let mut next: Vec<Node> = Vec::new();
+        // the level is expanded in chunks so that the state / wall caps take effect inside a level
+        let chunk_size = 512usize;
+        let mut chunk_start = 0usize;
+        while chunk_start < frontier.len() && !res.capped {
+        let chunk_end = (chunk_start + chunk_size).min(frontier.len());
+        let expanded: Vec<(usize, Result<Vec<SuccOut>, String>)> = frontier[chunk_start..chunk_end].par_iter().enumerate().map(|(ci, node)| {
+            let ni = chunk_start + ci;
             // rebuild the state by replay; the transcript of the prefix must be what it was (determinism)
             let base = match replay_history(th, make, &node.history, oracles) {
                 Ok((run, _)) => run,
@@ -464,7 +471,7 @@ pub fn explore_theory(th: &Theory, make: fn() -> Box<dyn DynModel>, b: &Bounds, 
             }
             (ni, Ok(outs))
         }).collect();
-        let mut next: Vec<Node> = Vec::new();
+        chunk_start = chunk_end;
         for (ni, r) in expanded {
             let node = &frontier[ni];
             let outs = match r {
@@ -533,6 +540,7 @@ pub fn explore_theory(th: &Theory, make: fn() -> Box<dyn DynModel>, b: &Bounds, 
                 }
             }
             if seen.len() > b.state_cap || t0.elapsed().as_secs() > b.wall_cap_s { res.capped = true; break; }
+        }
         }
         res.states = seen.len() as u64;
         if res.capped { break; }
